@@ -95,6 +95,11 @@ pub trait Engine: Sync {
     fn extra_coverage(&self, _tier: Tier) -> Value {
         json!({})
     }
+    /// true for a property that forbids schedule- or seed-dependent results (C16): a failure seen in
+    /// the sharded run is then reported even if the replay in a quiet process does not show it
+    fn schedule_dependent_failures_count(&self) -> bool {
+        false
+    }
 }
 
 // ------------------------------------------------------------------ panic capture
@@ -703,7 +708,12 @@ pub fn check_main(engine: &dyn Engine, tier: Tier) -> i32 {
         let again = run_one_isolated(engine, tier, case, &active);
         let again_un: Vec<&Failure> = again.iter().filter(|f| classify(f, &findings, &active).is_none()).collect();
         let same = again_un.iter().map(|f| format!("{}@{}", f.clause, f.site)).collect::<Vec<_>>().join("+");
-        if same != sig {
+        if same != sig && engine.schedule_dependent_failures_count() {
+            // the property itself forbids results that depend on what the harness does not control
+            // (thread schedule, hash seeds): a difference between two runs of the real code is a
+            // witnessed violation even if a quiet process does not show it again
+            notes.push(format!("the failure of case {} was observed in the sharded run and did not recur on replay in a quiet process: the outcome depends on scheduling", trunc(&format!("{:?}", case), 120)));
+        } else if same != sig {
             println!(
                 "MACHINERY-ERROR property={} failure did not reproduce on replay (harness nondeterminism): case={} first={} replay={}",
                 id, trunc(&format!("{:?}", case), 200), sig, same
